@@ -36,7 +36,7 @@ def run_lane(n):
       res = {'repo_head': head, 'applies_to_head': ap.returncode == 0, 'detected_by': [], 'runs': {}}
       if ap.returncode == 0:
         for cid in [pid] + EXTRA.get(name, []):
-          env = dict(os.environ, VERIF_REPO=wt)
+          env = dict(os.environ, VERIF_REPO=wt, VERIF_EVIDENCE_DIR='/tmp/seed_evidence')
           r = subprocess.run([V + '/check', cid, '--tier', 'quick'], env=env, capture_output=True, text=True, cwd=V)
           viol = [l for l in r.stdout.splitlines() if l.startswith('VIOLATION')]
           what = [l.strip()[:300] for l in r.stdout.splitlines() if l.strip().startswith('what:')]
